@@ -72,9 +72,18 @@ def run_print(h, srcs, comments=False):
     return res
 
 
+def wasm_loop_args():
+    """the harness copy of the blots-wasm statement loop follows the tree under test"""
+    try:
+        with open(os.path.join(c.REPO, "blots-wasm", "src", "lib.rs")) as f:
+            return ["--leading-minus"] if "protect_leading_minus" in f.read() else []
+    except OSError:
+        return []
+
+
 def run_format(h, cases):
     """cases: list of (src, width) -> list of dict / error string"""
-    outs = c.harness_lines_resilient(h, "format07", ["%s\t%d" % (hx(s), w) for s, w in cases])
+    outs = c.harness_lines_resilient(h, "format07", ["%s\t%d" % (hx(s), w) for s, w in cases], wasm_loop_args())
     res = []
     for o in outs:
         parts = o.split(" ")
